@@ -23,6 +23,8 @@ type Case struct {
 	// DropV: build vendor-specific AVPs without the V flag and rely on
 	// NewAVP to set it (forward direction only).
 	DropV bool `json:"drop_v,omitempty"`
+	// TopDown: grouped AVPs are created empty, attached, and filled afterwards.
+	TopDown bool `json:"top_down,omitempty"`
 }
 
 const sigAmb = "addr-family-ambiguous"
@@ -58,6 +60,7 @@ func genCase(t *rapid.T) Case {
 	depth := ev.Pick(4, 12)
 	c.Msg = cat.Message(t, gen.TreeOpts{MaxTop: 12, MaxDepth: rapid.IntRange(1, depth).Draw(t, "max-depth")})
 	c.DropV = rapid.Bool().Draw(t, "drop-v")
+	c.TopDown = rapid.Bool().Draw(t, "top-down")
 	return c
 }
 
@@ -103,7 +106,7 @@ func build(c Case) (*diam.Message, error) {
 				return nil, err
 			}
 		default:
-			m.AddAVP(a.ToDiamAVPOpt(c.DropV))
+			m.AddAVP(a.Build(gen.BuildOpts{DropV: c.DropV, TopDown: c.TopDown}))
 		}
 	}
 	return m, nil
@@ -125,6 +128,11 @@ func runForward(c Case) *ev.Failure {
 	if len(b1) >= 1<<24 {
 		return nil
 	}
+	// the same image must leave through WriteTo (pooled, previously used buffers)
+	var w1 bytes.Buffer
+	if n, err := m.WriteTo(&w1); err != nil || int(n) != len(b1) || !bytes.Equal(w1.Bytes(), b1) {
+		return ev.Failf(sigFor(c, "writeto-differs"), "WriteTo wrote (%d, %v) and differs from Serialize at offset %d: WriteTo % x, Serialize % x", n, err, firstDiff(w1.Bytes(), b1), clip(w1.Bytes()), clip(b1))
+	}
 	if d := headerDiff("built message", m.Header, &c.Msg, len(b1)); d != "" {
 		return ev.Failf(sigFor(c, "header-differs"), "%s", d)
 	}
@@ -141,6 +149,10 @@ func runForward(c Case) *ev.Failure {
 	b2, err := m2.Serialize()
 	if err != nil {
 		return ev.Failf(sigFor(c, "serialize-error"), "second Serialize: %v", err)
+	}
+	var w2 bytes.Buffer
+	if _, err := m2.WriteTo(&w2); err != nil || !bytes.Equal(w2.Bytes(), b1) {
+		return ev.Failf(sigFor(c, "reserialize-differs"), "writing the re-read message with WriteTo gives different bytes (err %v, first difference at offset %d): first % x, second % x", err, firstDiff(b1, w2.Bytes()), clip(b1), clip(w2.Bytes()))
 	}
 	if !bytes.Equal(b1, b2) {
 		return ev.Failf(sigFor(c, "reserialize-differs"), "serialising the re-read message gives different bytes (first difference at offset %d): first % x, second % x", firstDiff(b1, b2), clip(b1), clip(b2))
@@ -183,6 +195,10 @@ func runBackward(c Case) *ev.Failure {
 	b, err := m.Serialize()
 	if err != nil {
 		return ev.Failf(sigFor(c, "serialize-error"), "Serialize: %v", err)
+	}
+	var w bytes.Buffer
+	if _, err := m.WriteTo(&w); err != nil || !bytes.Equal(w.Bytes(), wire) {
+		return ev.Failf(sigFor(c, "reserialize-differs"), "read + WriteTo is not the identity (err %v, first difference at offset %d): wire % x, got % x", err, firstDiff(wire, w.Bytes()), clip(wire), clip(w.Bytes()))
 	}
 	if !bytes.Equal(b, wire) {
 		return ev.Failf(sigFor(c, "reserialize-differs"), "read + serialise is not the identity (first difference at offset %d): wire % x, got % x%s", firstDiff(wire, b), clip(wire), clip(b), bad)
